@@ -41,6 +41,11 @@ func validateTaxCode(value interface{}) error {
 }
 
 func validateDigits(code, check cbc.Code) error {
+	for _, c := range code + check {
+		if c < '0' || c > '9' {
+			return errInvalidVAT
+		}
+	}
 	num, err := strconv.ParseInt(string(code), 10, 64)
 	if err != nil {
 		return errInvalidVAT
